@@ -14,21 +14,24 @@
      closure g c            Graph.parent_to_children_mapping.get(c, set())
      queue_of g             Graph.queue after iterate_nodes_and_edges (DFS from the roots)
      plan_of ord g          the execution plan (list of Orch.step: sid, KFG, uuids, req, requested)
-     prepare_A ord g        Planned p | Rejected (validation) | OutsideFragment (add_tfs would create a transform step)
+     prepare_A ord g        Planned p | RejectedIncomplete | RejectedCycle (the two ValueErrors of the validation) |
+                            OutsideFragment (add_tfs would create a transform step)
+     runsim / runsim_accepts  the run simulation of _validate_steps_do_not_wait_in_a_cycle; sim_order: its start order
      group_dag g            the feature GROUPS depend on each other acyclically (inputs inside one group do not count)
      graph_equiv g g'       the same graph in other dict / set orders;  plan_equiv: same steps up to order / ids
      request_graph defs rq  the graph the engine recursion builds for a request (declarative; tied by correspondence)
 
-   FINDING.  plan_wf does NOT hold for all strict-fragment graphs: when two groups depend on each other through
-   features that are unrelated inside each group (a1 -> b1, b2 -> a2), each group is ONE step and the two steps require
-   each other; prepare accepts the plan and the run never returns (PlannerA_plan_wf_refuted; reproduced on the real
-   mloda by harness/planner_a.py).  The theorem holds when the groups form a DAG (kf_group_cycle g = false). *)
+   HISTORY.  Before /repo commit 12fe10c prepare accepted strict-fragment requests whose plan could never run: when two
+   groups depend on each other through features that are unrelated inside each group (a1 -> b1, b2 -> a2), each group is
+   ONE step and the two steps require each other (PlannerA_plan_wf_refuted is about that UNVALIDATED plan).  12fe10c added
+   a run-simulation validation; the model follows it (runsim), and the theorems are now at full strength: every accepted
+   plan is well formed, and a request is accepted exactly when its plan is well formed for some order. *)
 From Coq Require Import List Bool Arith Lia Permutation.
 Import ListNotations.
 Require Import MV.Model.Orch MV.Model.OrchCheck MV.Model.PlannerA MV.Spec.PlannerASpec.
 Require Import MV.Proofs.OrchP MV.Proofs.OrchTermP.
 Require Import MV.Proofs.PlannerAGraph MV.Proofs.PlannerAQueue MV.Proofs.PlannerALevels MV.Proofs.PlannerAP.
-Require Import MV.Proofs.PlannerADet MV.Proofs.PlannerAReq.
+Require Import MV.Proofs.PlanSimP MV.Proofs.PlannerADet MV.Proofs.PlannerAReq.
 
 (* ---- 1. the ancestor closure ---- *)
 (* parents_by_direct_[c] is exactly the set of direct inputs of c (the redundant recursion adds nothing else) *)
@@ -101,12 +104,19 @@ Theorem PlannerA_plan_facts : forall ord g, ord_ok ord -> graph_ok g -> strict g
 Proof. exact plan_facts. Qed.
 Print Assumptions PlannerA_plan_facts.
 
-(* add_joinstep / add_tfs add nothing in the fragment and _validate_required_uuids_are_produced passes: every strict
-   acyclic graph is accepted with exactly the feature-group steps *)
-Theorem PlannerA_prepare_accepts : forall ord g, ord_ok ord -> graph_ok g -> strict g ->
-  prepare_A ord g = Planned (plan_of ord g).
-Proof. exact prepare_accepts. Qed.
-Print Assumptions PlannerA_prepare_accepts.
+(* add_joinstep / add_tfs add nothing in the fragment and the produced-check of _validate_required_uuids_are_produced
+   passes: the outcome is decided by the run simulation alone, and it is Planned (with exactly the feature-group steps)
+   or the cycle error - never the incomplete-plan error, never a transform step *)
+Theorem PlannerA_prepare_outcome : forall ord g, ord_ok ord -> graph_ok g -> strict g ->
+  prepare_A ord g = if runsim_accepts (plan_of ord g) then Planned (plan_of ord g) else RejectedCycle.
+Proof. exact prepare_outcome. Qed.
+Print Assumptions PlannerA_prepare_outcome.
+
+(* no step requires one of its own features (the side condition under which the validation and the orchestrator agree) *)
+Theorem PlannerA_plan_no_self_req : forall ord g, ord_ok ord -> graph_ok g -> strict g ->
+  wf_struct (plan_of ord g) = true /\ no_self_req (plan_of ord g) = true.
+Proof. intros ord g H1 H2 H3. split; [exact (plan_struct ord g H1 H2 H3) | exact (plan_no_self_req ord g H1 H2 H3)]. Qed.
+Print Assumptions PlannerA_plan_no_self_req.
 
 (* T3's req_covers is a theorem on the fragment *)
 Theorem PlannerA_plan_req_covers : forall ord g, ord_ok ord -> graph_ok g -> strict g ->
@@ -114,30 +124,69 @@ Theorem PlannerA_plan_req_covers : forall ord g, ord_ok ord -> graph_ok g -> str
 Proof. exact plan_req_covers. Qed.
 Print Assumptions PlannerA_plan_req_covers.
 
-(* ---- 5. well-formedness ----
-   Full statement (FALSE, see PlannerA_plan_wf_refuted):
-     forall ord g, ord_ok ord -> graph_ok g -> strict g -> exists order, wf_plan order (plan_of ord g) = true.
-   Known-defect domain, decidable on the graph: the group-level dependency relation has a cycle. *)
-Definition kf_group_cycle (g : fgraph) : bool := negb (group_dagb g).
+(* ---- 5. the validation, for arbitrary plans (any kind of steps; usable on every exported plan) ---- *)
+(* rejected => there is NO order for which the plan is well formed *)
+Theorem PlannerA_runsim_complete : forall order p, wf_plan order p = true -> runsim_accepts p = true.
+Proof. exact sim_complete. Qed.
+Print Assumptions PlannerA_runsim_complete.
 
-Theorem PlannerA_plan_wf_partial : forall ord g, ord_ok ord -> graph_ok g -> strict g -> group_dag g ->
-  exists order, wf_plan order (plan_of ord g) = true.
+(* accepted => well formed for the order in which the simulation starts the steps, provided the structure is fine and no
+   step requires one of its own uuids *)
+Theorem PlannerA_runsim_sound : forall p, runsim_accepts p = true -> wf_struct p = true -> no_self_req p = true ->
+  wf_plan (sim_order p) p = true.
+Proof. exact sim_sound. Qed.
+Print Assumptions PlannerA_runsim_sound.
+
+Theorem PlannerA_runsim_accepts_iff : forall p, wf_struct p = true -> no_self_req p = true ->
+  (runsim_accepts p = true <-> exists order, wf_plan order p = true).
+Proof. exact runsim_accepts_iff. Qed.
+Print Assumptions PlannerA_runsim_accepts_iff.
+
+(* without no_self_req soundness FAILS: the validation subtracts a step's own uuids from its requirements,
+   ExecutionOrchestrator._can_run_step does not - such a plan is accepted and never runs *)
+Example PlannerA_runsim_self_req_gap :
+  runsim_accepts p_selfreq = true /\ wf_struct p_selfreq = true /\ no_self_req p_selfreq = false /\
+  wf_plan_auto p_selfreq = false /\
+  loop_head p_selfreq (run false true (fun _ => false) p_selfreq (repeat EScan 50)) = Looping.
+Proof. exact sim_self_req_gap. Qed.
+
+(* well-formedness for some order is invariant under plan_equiv *)
+Theorem PlannerA_wf_exists_equiv : forall p p', plan_equiv p p' -> wf_struct p' = true ->
+  (exists order, wf_plan order p = true) -> exists order', wf_plan order' p' = true.
+Proof. exact wf_exists_equiv. Qed.
+Print Assumptions PlannerA_wf_exists_equiv.
+
+(* ---- 5b. well-formedness of planned requests, at full strength ---- *)
+Theorem PlannerA_plan_wf : forall ord g p, ord_ok ord -> graph_ok g -> strict g -> prepare_A ord g = Planned p ->
+  exists order, wf_plan order p = true.
 Proof. exact plan_wf. Qed.
-Print Assumptions PlannerA_plan_wf_partial.
+Print Assumptions PlannerA_plan_wf.
 
-Theorem PlannerA_plan_wf_partial_b : forall ord g, ord_ok ord -> graph_okb g = true -> strictb g = true ->
-  kf_group_cycle g = false -> exists order, wf_plan order (plan_of ord g) = true.
-Proof.
-  intros ord g Hord Hok Hs Hkf. apply negb_false_iff in Hkf. pose proof (graph_okb_sound g Hok) as Hg.
-  exact (plan_wf ord g Hord Hg (strictb_sound g Hs) (group_dagb_sound g (proj1 Hg) Hkf)).
-Qed.
-Print Assumptions PlannerA_plan_wf_partial_b.
+(* accepted EXACTLY when the unvalidated plan is well formed for some order *)
+Theorem PlannerA_prepare_accepts_iff : forall ord g, ord_ok ord -> graph_ok g -> strict g ->
+  (prepare_A ord g = Planned (plan_of ord g) <-> exists order, wf_plan order (plan_of ord g) = true).
+Proof. exact prepare_accepts_iff. Qed.
+Print Assumptions PlannerA_prepare_accepts_iff.
 
-(* inside the domain: an acyclic strict graph that prepare accepts, whose plan is well formed for NO order, and on which
-   the SYNC loop of the orchestrator model is still looping after 200 iterations *)
+(* sufficient on the graph: the feature groups form a DAG.  The converse does NOT hold (PlannerA_ex_group_cycle_accepted:
+   a group cycle that the level split resolves). *)
+Definition kf_group_cycle (g : fgraph) : bool := negb (group_dagb g).
+Theorem PlannerA_prepare_accepts_dag : forall ord g, ord_ok ord -> graph_ok g -> strict g -> group_dag g ->
+  prepare_A ord g = Planned (plan_of ord g).
+Proof. exact prepare_accepts_dag. Qed.
+Print Assumptions PlannerA_prepare_accepts_dag.
+
+Example PlannerA_ex_group_cycle_accepted :
+  defs_okb ex2_defs [3] = true /\ defs_group_dagb ex2_defs = false /\ group_dagb (request_graph ex2_defs [3]) = false /\
+  prepare_A ord_id (request_graph ex2_defs [3]) = Planned (plan_of ord_id (request_graph ex2_defs [3])) /\
+  List.length (plan_of ord_id (request_graph ex2_defs [3])) = 4.
+Proof. exact ex2_accepted_l. Qed.
+
+(* why the validation is needed: the UNVALIDATED plan of an acyclic strict graph can be well formed for NO order (the
+   orchestrator model is still looping after 200 iterations on it); the validation rejects exactly this *)
 Theorem PlannerA_plan_wf_refuted :
   graph_ok g_cross /\ strict g_cross /\ group_dagb g_cross = false /\
-  prepare_A ord_id g_cross = Planned (plan_of ord_id g_cross) /\
+  prepare_A ord_id g_cross = RejectedCycle /\
   (forall order, wf_plan order (plan_of ord_id g_cross) = false) /\
   (forall n, n <= 200 -> loop_head (plan_of ord_id g_cross)
                            (run false true (fun _ => false) (plan_of ord_id g_cross) (repeat EScan n)) = Looping).
@@ -151,6 +200,14 @@ Theorem PlannerA_plan_deterministic : forall ord ord' g g', ord_ok ord -> ord_ok
   graph_equiv g g' -> plan_equiv (plan_of ord g) (plan_of ord' g').
 Proof. exact plan_deterministic. Qed.
 Print Assumptions PlannerA_plan_deterministic.
+
+(* ... and so is the accept / reject decision *)
+Theorem PlannerA_prepare_deterministic : forall ord ord' g g', ord_ok ord -> ord_ok ord' -> graph_ok g -> strict g -> graph_equiv g g' ->
+  (prepare_A ord g = Planned (plan_of ord g) <-> prepare_A ord' g' = Planned (plan_of ord' g')) /\
+  (prepare_A ord g = RejectedCycle <-> prepare_A ord' g' = RejectedCycle) /\
+  plan_equiv (plan_of ord g) (plan_of ord' g').
+Proof. exact prepare_deterministic. Qed.
+Print Assumptions PlannerA_prepare_deterministic.
 
 (* the levels of one group do not depend on the iteration orders *)
 Theorem PlannerA_split_levels_perm : forall cl cl' F F', (forall u a, In a (cl u) <-> In a (cl' u)) -> Permutation F F' ->
@@ -170,9 +227,10 @@ Theorem PlannerA_features_after_ancestors : forall ord g, ord_ok ord -> graph_ok
 Proof. exact features_after_ancestors. Qed.
 Print Assumptions PlannerA_features_after_ancestors.
 
-Theorem PlannerA_graph_terminates : forall ord g, ord_ok ord -> graph_ok g -> strict g -> group_dag g -> g <> [] ->
-  forall stream, exists n, n <= 2 * List.length (plan_of ord g) + 1 /\
-    loop_head (plan_of ord g) (run stream true (fun _ => false) (plan_of ord g) (repeat EScan n)) = ExitNormal.
+Theorem PlannerA_graph_terminates : forall ord g p, ord_ok ord -> graph_ok g -> strict g -> g <> [] ->
+  prepare_A ord g = Planned p ->
+  forall stream, exists n, n <= 2 * List.length p + 1 /\
+    loop_head p (run stream true (fun _ => false) p (repeat EScan n)) = ExitNormal.
 Proof. exact graph_terminates. Qed.
 Print Assumptions PlannerA_graph_terminates.
 
@@ -187,20 +245,31 @@ Theorem PlannerA_request_group_dag : forall defs rq, defs_ok defs rq -> defs_gro
 Proof. exact request_group_dag. Qed.
 Print Assumptions PlannerA_request_group_dag.
 
-(* g = the engine's graph for the request in whatever orders it came out (the harness checks graph_equiv on every case):
-   the request is accepted, its plan is the plan of the request up to order, the SYNC run exits normally within
-   2n+1 iterations, and C01's start_requires holds in terms of the feature graph *)
-Theorem PlannerA_requests_terminate : forall defs rq ord g, defs_ok defs rq -> defs_group_dag defs -> rq <> [] -> ord_ok ord ->
-  graph_equiv (request_graph defs rq) g ->
-  prepare_A ord g = Planned (plan_of ord g) /\
+(* g = the engine's graph for the request in whatever orders it came out (the harness checks graph_equiv on every case).
+   Decision: accepted or the cycle error; the same as for the request in canonical orders; the plan is the plan of the
+   request up to order; accepted whenever the groups of the definitions form a DAG *)
+Theorem PlannerA_requests_decided : forall defs rq ord g, defs_ok defs rq -> ord_ok ord -> graph_equiv (request_graph defs rq) g ->
+  (prepare_A ord g = Planned (plan_of ord g) \/ prepare_A ord g = RejectedCycle) /\
+  (prepare_A ord g = Planned (plan_of ord g) <->
+   prepare_A ord_id (request_graph defs rq) = Planned (plan_of ord_id (request_graph defs rq))) /\
   plan_equiv (plan_of ord_id (request_graph defs rq)) (plan_of ord g) /\
-  (forall stream, exists n, n <= 2 * List.length (plan_of ord g) + 1 /\
-     loop_head (plan_of ord g) (run stream true (fun _ => false) (plan_of ord g) (repeat EScan n)) = ExitNormal) /\
+  (defs_group_dag defs -> prepare_A ord g = Planned (plan_of ord g)).
+Proof. exact requests_decided. Qed.
+Print Assumptions PlannerA_requests_decided.
+
+(* EVERY accepted request: the plan is well formed, the SYNC run exits normally within 2n+1 iterations, and C01's
+   start_requires holds in terms of the feature graph *)
+Theorem PlannerA_requests_terminate : forall defs rq ord g p, defs_ok defs rq -> rq <> [] -> ord_ok ord ->
+  graph_equiv (request_graph defs rq) g -> prepare_A ord g = Planned p ->
+  p = plan_of ord g /\
+  (exists order, wf_plan order p = true) /\
+  (forall stream, exists n, n <= 2 * List.length p + 1 /\
+     loop_head p (run stream true (fun _ => false) p (repeat EScan n)) = ExitNormal) /\
   (forall stream inline fails es i fs ds,
-     In (i, (fs, ds)) (started (run stream inline fails (plan_of ord g) es)) ->
-     exists s, In s (plan_of ord g) /\ sid s = i /\
+     In (i, (fs, ds)) (started (run stream inline fails p es)) ->
+     exists s, In s p /\ sid s = i /\
        forall f a, In f (uuids s) -> anc g a f ->
-         In a fs /\ exists s', In s' (plan_of ord g) /\ In a (uuids s') /\ In (sid s') ds).
+         In a fs /\ exists s', In s' p /\ In a (uuids s') /\ In (sid s') ds).
 Proof. exact requests_terminate. Qed.
 Print Assumptions PlannerA_requests_terminate.
 
